@@ -67,6 +67,7 @@ class Judgement:
 def judge(prop, res, scs):
     """-> list of Judgement, one per scenario of the batch"""
     logs, ended, last = O.split_groups(res.out)
+    last = min(last, len(scs) - 1)      # (a corrupted process may print a wild group number)
     crash = None if res.timed_out else crash_kind(res)
     # a crash after SimGrid announced the final deadlock happened while the engine was killing the actors that were still blocked:
     # every scenario of the batch was run to its end (only the end-of-run slot checks are missing)
